@@ -104,6 +104,9 @@ type Prop struct {
 	// OnDeath classifies a worker process that died while running a case
 	// (engine B child-process isolation); nil means machinery trouble.
 	OnDeath func(r *Result)
+	// SlowCase is a generous upper estimate of the real time one case may take
+	// (only used to size the watchdog of a worker chunk).
+	SlowCase time.Duration
 	// Diff: the parent runs every case in two worker binaries (default build
 	// and the one named by VERIF_WORKER_PUREGO) and compares their transcripts.
 	Diff bool
